@@ -1,4 +1,5 @@
 import CstModel.Props.C05
+import CstModel.Props.GenNode
 open Cst.C05
 #print axioms step_effect
 #print axioms torn_mono
@@ -11,3 +12,5 @@ open Cst.C05
 #print axioms concurrent_agrees_with_sequential
 #print axioms race_loser_unobservable
 #print axioms atomic_is_get_or_add
+#print axioms Cst.Gen.n_try_write
+#print axioms Cst.Gen.n_read
